@@ -296,7 +296,7 @@ def run_unary(spec, tier, seed, res, hook):
         c = _coords_f64(rv, system)
         if c is not None and all(math.isfinite(x) for x in c):
             cases.append((lab, c))
-    ng = 20 if tier == "quick" else 300
+    ng = 30 if tier == "quick" else 1500
     for _ in range(ng):
         rv, lab = gen.vec(r, dim, core=False, wide=True)
         c = _coords_f64(rv, system)
@@ -490,7 +490,7 @@ def run_angle(spec, tier, seed, res, hook):
     k = 2 if dim == 2 else 3
     for s2 in R.SYSTEMS[dim]:
         pairs = []  # (label, rv_a, rv_b)
-        ng = 6 if tier == "quick" else 60
+        ng = 6 if tier == "quick" else 120
         for _ in range(ng):
             a, _ = gen.vec(r, dim, core=True)
             b, _ = gen.vec(r, dim, core=True)
